@@ -365,6 +365,25 @@ def run(chk, facts, tier, only=None):
                     chk.assume(f"{short_fn(k)} {kind} x{num}: {rows[0][3]}")
         chk.floor("non-arithmetic panic sites in decode-reachable code", n, 45)
         cursor_rule()
+        # set_field_name's unreachable!(): "the pending field name was taken before the next one is set" holds within one value; a value that
+        # fails after next_key_seed selected a field leaves the name pending, so every entry that starts a new value on the same
+        # Deserializer must clear it (otherwise the next get_value of a record panics instead of returning a value or an error)
+        sfn = c.fn(r"de::Deserializer::<'de>::set_field_name$")
+        guarded = any(is_panic_call(x) for x in walk(sfn["body"])) if "is_panic_call" in globals() else \
+            any(x.get("k") == "call" and re.search(r"core::panicking|begin_panic|panic_fmt", callee(x) or "") for x in walk(sfn["body"]))
+        if guarded:
+            entry = c.fn(r"de::IDLDeserialize::<'de>::deserialize_with_type$")
+            chk.analysed(entry["key"], sfn["key"])
+            clears = [a for a in nodes(entry["body"], "assign") if (expr_path(a["a"]) or "").endswith(".field_name")
+                      and (unblock(a["b"]).get("k") == "path" and (unblock(a["b"]).get("res") or {}).get("path", "").endswith("Option::None"))]
+            takes = [x for x in walk(entry["body"]) if x.get("k") == "mcall" and x["m"] in ("take",) and (expr_path(x["recv"]) or "").endswith(".field_name")]
+            chk.expect(bool(clears or takes), "field-name:cleared-at-value-start",
+                       "Deserializer::set_field_name panics (unreachable!) when a field name is still pending, and IDLDeserialize::deserialize_with_type — the "
+                       "start of every get_value / get_value_with_type — does not clear it: after `get_value::<Big>()` failed on a missing required field, "
+                       "`get_value::<Small>()` on the same IDLDeserialize panics at the first record field instead of returning a value or an error",
+                       where=f"{entry['span']['file']}:{entry['span']['lo']}", ok_detail="field_name = None before the value is dispatched")
+        else:
+            chk.ok("field-name:cleared-at-value-start", "set_field_name does not panic on a pending name", nontrivial=False)
         # the variant tag string: variant_seed appends `,<name|id>,<accessor>` to the label; the consumer must take those two
         # parts from the right, because the label is arbitrary text of the expected type
         from shared import fmt_template
